@@ -1,7 +1,7 @@
 (* Extract.v — extraction of the executable models (ExtrOcamlBasic only; Z, N, positive and
    nat stay Coq's own inductive datatypes; no Extract Constant). *)
 From Coq Require Extraction ExtrOcamlBasic.
-From CgreenVerif Require Import Defs Runner Lemmas_Props Mocks CStr Lemmas_Constraints Printf Vector Values Params Doubles Timeout RunnerTool Xml Faults.
+From CgreenVerif Require Import Defs Runner Lemmas_Props Mocks CStr Lemmas_Constraints Printf Vector Values Params Doubles Timeout RunnerTool Xml Faults CLite CodeCheck.
 From CgreenVerif.Gen Require Import Facts.
 
 Extraction "../ocaml/model.ml"
@@ -32,5 +32,7 @@ Extraction "../ocaml/model.ml"
   RunnerTool.parse_spec RunnerTool.mangle RunnerTool.glob RunnerTool.scan_args RunnerTool.main_m Facts.single_run_by_item_name
   Xml.message_att Xml.unescape Xml.suite_doc
   Faults.under_fault Faults.current_handling Faults.not_success
+  CodeCheck.code_read_results CodeCheck.model_read_results CodeCheck.code_finish_test CodeCheck.model_finish_test
+  CodeCheck.code_finish_suite CodeCheck.model_finish_suite
   Facts.verdict_suite Facts.verdict_single Facts.rk_text Facts.rk_cute Facts.rk_xml
   Facts.rk_libxml Facts.rk_cdash Facts.msg_codes.
